@@ -13,12 +13,12 @@ if [ -f "$SD/dev-deps.toml" ]; then cat "$SD/dev-deps.toml" >> h263/Cargo.toml; 
 cp "$SD/demo.rs" "$DEST"
 T=$(basename "$DEST" .rs); PKG=$(echo "$DEST" | cut -d/ -f1)
 case "$PKG" in h263) PKGN=h263-rs;; deblock) PKGN=h263-rs-deblock;; yuv) PKGN=h263-rs-yuv;; esac
-if cargo test --offline -p "$PKGN" --test "$T" >/tmp/vs_clean.log 2>&1; then CLEAN=pass; else CLEAN=FAIL; fi
+if cargo test --offline -p "$PKGN" --test "$T" >"$WT/.vs_clean.log" 2>&1; then CLEAN=pass; else CLEAN=FAIL; fi
 rm -f "$DEST"
 git apply "$SD/patch.diff"
-if cargo test --workspace --offline >/tmp/vs_ws.log 2>&1; then WS=pass; else WS=FAIL; fi
+if cargo test --workspace --offline >"$WT/.vs_ws.log" 2>&1; then WS=pass; else WS=FAIL; fi
 cp "$SD/demo.rs" "$DEST"
-if cargo test --offline -p "$PKGN" --test "$T" >/tmp/vs_patched.log 2>&1; then PATCHED=pass; else PATCHED=FAIL; fi
+if cargo test --offline -p "$PKGN" --test "$T" >"$WT/.vs_patched.log" 2>&1; then PATCHED=pass; else PATCHED=FAIL; fi
 rm -f "$DEST"; git checkout -q -- .
 echo "RESULT demo_on_clean=$CLEAN existing_tests_with_patch=$WS demo_with_patch=$PATCHED"
 [ "$CLEAN" = pass ] && [ "$WS" = pass ] && [ "$PATCHED" = FAIL ]
